@@ -407,6 +407,38 @@ def native_bodies_mismatch(r, emit_index=0):
     return bool(info) or len(ins) != len(outs), info
 
 
+def confirm_dwarf_skipped(vio, pid):
+    """C14 flag.dwarf.skipped: DWARF is synthesised for the description (vreplay dwarf, generate_dwarf on); reproduced iff
+    the input carries .debug sections and the output carries none"""
+    import z3
+    spec = vio.get('spec')
+    J = vio.get('spec_json')
+    if J is None:
+        s = z3.Solver()
+        s.add(*(vio.get('pc') or []))
+        s.check()
+        J = witness.spec_json(spec, s.model())
+    J = dict(J)
+    J['customs'] = [c for c in J.get('customs', []) if not c['name'].startswith('.debug')]      # real DWARF replaces the tokens
+    d = os.path.join(common.BUILD, 'scripts')
+    os.makedirs(d, exist_ok=True)
+    res, ok = {}, []
+    for profile in ('debug', 'release'):
+        p = os.path.join(d, 'dwarfskip-%d.json' % os.getpid())
+        json.dump({'spec': J, 'version': 4, 'gc': False}, open(p, 'w'))
+        r = replay.run_vreplay(['dwarf', p], profile)
+        os.remove(p)
+        ins = (r.get('input') or {}).get('debug_sections') or []
+        outs = (r.get('output') or {}).get('debug_sections') or []
+        res[profile] = {'status': r.get('status'), 'input_debug_sections': ins, 'output_debug_sections': outs}
+        ok.append(r.get('status') == 'ok' and bool(ins) and not outs)
+    path = replay.save_witness(pid, vio['key'], {'route': 'dwarf', 'what': vio['what'], 'script': {'spec': J, 'version': 4, 'gc': False}, 'native': res})
+    vio['replay'] = path
+    vio['reproduced'] = True if all(ok) else False
+    for k in ('spec', 'model', 'pc', 'native_check', 'spec_json', 'config'):
+        vio.pop(k, None)
+
+
 # ------------------------------------------------------------------ DWARF route (vreplay dwarf: DWARF synthesised with gimli::write)
 def confirm_dwarf(vio, pid):
     spec = vio.get('spec')
